@@ -147,6 +147,11 @@ pub fn modes_general() -> Vec<GenCfg> {
     k.ts = TsMode::Ties;
     k.op_w = [28, 30, 8, 10, 5, 5, 4, 0, 8];
     v.push(k);
+    // user-chosen timestamps 0..=50 in any order (0 included)
+    let mut n = GenCfg::base("ts-non-monotone");
+    n.ts = TsMode::NonMonotone;
+    n.op_w = [28, 32, 8, 10, 5, 5, 4, 0, 0];
+    v.push(n);
     v
 }
 
